@@ -32,8 +32,13 @@ def reduce_useful(d):
 
 @st.composite
 def ll1_like(draw):
-    vs = ["S", "A", "B"][:draw(st.sampled_from([2, 3, 1]))]
-    ts = ["a", "b", "c"][:draw(st.sampled_from([2, 3]))]
+    if draw(st.sampled_from([0, 0, 1, 0])) == 1:
+        # a bigger grammar: chains of variables-only bodies over many nullable variables
+        vs = ["S", "T", "A", "B", "C", "E"][:draw(st.sampled_from([5, 6, 4]))]
+        ts = ["a", "b", "c", "d", "e"][:draw(st.sampled_from([4, 5]))]
+    else:
+        vs = ["S", "A", "B"][:draw(st.sampled_from([2, 3, 1]))]
+        ts = ["a", "b", "c"][:draw(st.sampled_from([2, 3]))]
     prods = []
     for v in vs:
         lead = draw(st.lists(st.sampled_from(ts), min_size=1, max_size=len(ts), unique=True))
@@ -42,7 +47,9 @@ def ll1_like(draw):
                                            st.sampled_from(ts).map(lambda x: ["T", x])), max_size=2))
             prods.append([v, [["T", t]] + tail])
         k = draw(st.integers(0, 4))
-        if k == 0:
+        if len(vs) > 3 and draw(st.booleans()):
+            lead = lead[:1]
+        if k == 0 or (len(vs) > 3 and draw(st.integers(0, 2)) == 0):
             prods.append([v, []])
         elif k == 1 and len(vs) > 1:
             # a body made of variables only (nullable non-empty body when they are nullable)
@@ -80,11 +87,29 @@ def run_case(case):
     failures = []
     d = case["g"]
     R = ref_cfg.from_desc(d)
-    with guard(failures, "build"):
-        g = ref_cfg.build_lib(d)
-        parser = LLOneParser(g)
-    if failures:
-        return {"failures": failures}
+    res = None
+    for phase in ("fresh", "warmed"):
+        with guard(failures, "build"):
+            g = ref_cfg.build_lib(d)
+            if phase == "warmed":
+                # the grammar object has answered other queries before the parser is built on it
+                g.is_empty()
+                g.get_generating_symbols()
+                g.get_reachable_symbols()
+                g.remove_useless_symbols()
+            parser = LLOneParser(g)
+        if failures:
+            return {"failures": failures}
+        res = check_parser(R, d, parser, failures, "" if phase == "fresh" else "@warmed")
+        if failures:
+            break
+    res["failures"] = failures
+    return res
+
+
+def check_parser(R, d, parser, failures, suffix):
+    from pyformlang.cfg import Variable, Terminal, Epsilon
+    from pyformlang.cfg.cfg import NotParsableException
     first = R.first_sets()
     follow = R.follow_sets(end="$")
     ll1 = R.is_ll1()
@@ -99,39 +124,41 @@ def run_case(case):
             else:
                 out.add(("?", repr(x)))
         return out
-    with guard(failures, "get_first_set"):
+    with guard(failures, "get_first_set" + suffix):
         fs = parser.get_first_set()
         for v in sorted(R.vars, key=repr):
             got = conv(fs.get(Variable(v), set()))
             if got != first[v]:
-                failures.append(fail("get_first_set", "differs", {"var": v, "got": sorted(got, key=repr),
+                failures.append(fail("get_first_set" + suffix, "differs", {"var": v, "got": sorted(got, key=repr),
                                                                   "expected": sorted(first[v], key=repr)}))
                 break
-    with guard(failures, "get_follow_set"):
+    with guard(failures, "get_follow_set" + suffix):
         fo = parser.get_follow_set()
         for v in sorted(R.vars, key=repr):
             raw = fo.get(Variable(v), set())
             got = {("$" if x == "$" and not isinstance(x, Terminal) else (x.value if isinstance(x, Terminal) else ("?", repr(x))))
                    for x in raw}
             if got != follow[v]:
-                failures.append(fail("get_follow_set", "differs", {"var": v, "got": sorted(got, key=repr),
+                failures.append(fail("get_follow_set" + suffix, "differs", {"var": v, "got": sorted(got, key=repr),
                                                                    "expected": sorted(follow[v], key=repr)}))
                 break
-    with guard(failures, "is_llone_parsable"):
+    with guard(failures, "is_llone_parsable" + suffix):
         got = parser.is_llone_parsable()
         if got != ll1:
-            failures.append(fail("is_llone_parsable", "wrong:%s" % got))
+            failures.append(fail("is_llone_parsable" + suffix, "wrong:%s" % got))
     lang = R.language_upto(5)
     members4 = sorted((w for w in lang if len(w) == 4), key=repr)[:12]
     terms = sorted(R.terms, key=repr)
     words = words_upto(terms[:3] + [gen_cfg.FOREIGN], 3) + members4
+    # every short member, whatever terminals it uses (grammars with more than three terminals)
+    words += [w for w in sorted((w for w in lang if len(w) <= 3), key=repr)[:60] if w not in words]
     for w in members4[:6]:
         for t in terms[:2]:
             words.append(w + (t,))
     if ll1:
         prods = R.prod_set()
         for w in words:
-            sub = "get_llone_parse_tree"
+            sub = "get_llone_parse_tree" + suffix
             try:
                 tree = parser.get_llone_parse_tree(list(w))
             except NotParsableException:
